@@ -14,7 +14,10 @@ for _f in sorted(glob.glob(os.path.join(_here, "props", "c*.py"))):
 # properties.jsonl without a unit table.
 ALL_IDS = ["C%02d" % i for i in range(1, 21)]
 NOT_APPLICABLE_REASONS = {}
+# Only properties listed in driver/claimed.txt are claimed in MANIFEST.json
+# (a check is added there once it runs clean on the unchanged tree).
+CLAIMED = [l.strip() for l in open(os.path.join(_here, "claimed.txt")) if l.strip() and not l.startswith("#")]
 NOT_APPLICABLE = [
     {"property_id": i, "reason": NOT_APPLICABLE_REASONS.get(i, "check under construction in this session; not claimed until it runs clean on the unchanged tree")}
-    for i in ALL_IDS if i not in PROPS
+    for i in ALL_IDS if i not in PROPS or i not in CLAIMED
 ]
